@@ -597,7 +597,7 @@ def gen_cases(rng, tier):
                   "eval": [["sett", 3, 1], ["app", 2, 1, 5], ["stash", 0, 0]], "ssel": [["new", 0], ["share", 4, 0, 0, 0], ["unstash", 2, 0]]}
     mut["logs"] = {"init": [["app", 0, 1, 8]], "psel": [["app", 5, 0, 3]], "mate": [], "eval": [["appt", 4, 2]], "ssel": [["del", 1, 0]]}
     cases.append(mut)
-    n_rand = 110 if tier == "quick" else 2400
+    n_rand = 110 if tier == "quick" else 3000
     for _ in range(n_rand):
         ncalls = rng.choice([1, 1, 1, 2])
         calls = [[rng.choice([0, 1, 2, 2, 3]), rng.choice([0, 1, 1, 2, 3]), rng.randint(0, 1)] for _ in range(ncalls)]
